@@ -13,6 +13,7 @@ mod c08;
 mod c09;
 mod c10;
 mod semcheck;
+mod smallscope;
 mod c11;
 mod c12;
 mod c13;
